@@ -1,5 +1,64 @@
-"""Control self-test: every rule must fire on its violating twin in /verif/controls and stay silent on the compliant twin."""
+"""Control self-test: the zero-count rules are run on /verif/controls on every check; each must report every `bad_<tag>_*`
+function and stay silent on every `good_<tag>_*` function.  A failing control means the rule lost its grip: the check exits 2."""
+import os
+import sys
+
+import engine
+from rulebase import Ctx
+
+TAGS = {"xfer": "R-XFER", "result": "R-RESULT-USED", "unwrap": "R-NO-UNWRAP", "codec": "R-REJ-UNKNOWN"}
+_cache = {}
 
 
-def run(prop):
-    return {"ran": False, "ok": True, "problems": [], "note": "controls crate not built yet"}
+def run(prop=None):
+    if "res" in _cache:
+        return _cache["res"]
+    import rules_twin as rt
+    res = {"ran": True, "ok": True, "problems": [], "fired": [], "silent": []}
+    try:
+        facts = engine.build_facts(os.path.join(engine.VERIF, "controls"), ["default"], target_tag="controls", crate_name="pmcontrols")["default"]
+    except engine.EngineError as ex:
+        res["ok"] = False
+        res["problems"].append("controls crate does not build: %s" % str(ex)[-300:])
+        return res
+    ctx = Ctx(facts)
+    obs = []
+    for fn in (rt.r_xfer_rule, rt.r_result_used, rt.r_no_unwrap, rt.r_factory, rt.r_nopoll):
+        try:
+            obs += fn(ctx)
+        except Exception as ex:
+            res["ok"] = False
+            res["problems"].append("%s crashed on the controls crate: %s" % (fn.__name__, ex))
+    bad_by_fn = {}
+    for o in obs:
+        if not o.ok:
+            bad_by_fn.setdefault(o.fn, set()).add(o.rule)
+    for f in facts.user_fns():
+        name = f["path"].rpartition("::")[2]
+        parts = name.split("_")
+        if len(parts) < 3 or parts[0] not in ("bad", "good") or parts[1] not in TAGS:
+            continue
+        rule = TAGS[parts[1]]
+        fired = rule in bad_by_fn.get(f["path"], set())
+        if parts[0] == "bad" and not fired:
+            res["ok"] = False
+            res["problems"].append("%s did not fire on %s" % (rule, name))
+        elif parts[0] == "good" and fired:
+            res["ok"] = False
+            res["problems"].append("%s fired on the compliant control %s" % (rule, name))
+        else:
+            (res["fired"] if parts[0] == "bad" else res["silent"]).append("%s:%s" % (rule, name))
+    # R-NOPOLL: the two hand-written stream impls must be reported
+    np = [o for o in obs if o.rule == "R-NOPOLL" and not o.ok]
+    if not np or "BadPollReader" not in np[0].msg or "BadSyncReader" not in np[0].msg:
+        res["ok"] = False
+        res["problems"].append("R-NOPOLL did not report the hand-written AsyncRead/Read impls of the controls crate")
+    else:
+        res["fired"].append("R-NOPOLL:BadPollReader+BadSyncReader")
+    _cache["res"] = res
+    return res
+
+
+if __name__ == "__main__":
+    import json
+    print(json.dumps(run(), indent=1))
